@@ -115,6 +115,47 @@ theorem T11_dispatch_pass_valid (d : Device) (D : TablesData) (nat : Natives) (f
   unrollOk_of_dispatch D.toTables nat fuel s.circ.queue q (closedCheck_sound D nat hC)
     (localCheck_sound D hL) (unrollInputOk_iff hin) (unrollDispatch_some hu)
 
+/-- padding keeps every measurement entry with all its constructor arguments (the tag of an
+    entry encodes register name, collapse flag, bases and readout-error maps), on the same
+    wire indices and in the same order. -/
+theorem T11_padding_keeps_measurements (d : Device) (c c' : Circ) (h : pad d c = some c') :
+    c'.queue.filter (·.meas) = c.queue.filter (·.meas) ∧
+    ∀ g ∈ c.queue, g.meas = true → g ∈ c'.queue := by
+  have hq := (T11_padding d c c' h).1
+  exact ⟨by rw [hq], fun g hg _ => by rw [hq]; exact hg⟩
+
+/-- … and so does every pass list without a router (routers re-key the entries to the
+    physical qubits: C09) whose unroller answers are validated: the reporting and the
+    collapsing entries of the output are those of the input. -/
+theorem T11_fold_keeps_measurements (d : Device) (nat : Natives) :
+    ∀ (ps : List Pass) (s s' : PState), (ps.all fun p => !isRouter p) = true →
+      validRun d nat s ps = true → runPasses d s ps = some s' →
+      s'.circ.queue.filter (·.meas) = s.circ.queue.filter (·.meas)
+  | [], s, s', _, _, h => by
+      simp only [runPasses, Option.some.injEq] at h
+      subst h; rfl
+  | p :: ps, s, s', hall, hv, h => by
+      simp only [runPasses] at h
+      cases h1 : runPass d s p with
+      | none => simp [h1] at h
+      | some s1 =>
+        simp only [h1, Option.bind_some] at h
+        simp only [validRun, h1, Bool.and_eq_true] at hv
+        simp only [List.all_cons, Bool.and_eq_true, Bool.not_eq_true'] at hall
+        rw [T11_fold_keeps_measurements d nat ps s1 s' hall.2 hv.2 h]
+        cases p with
+        | pre =>
+          obtain ⟨c', hp, rfl⟩ := pre_step h1
+          exact (T11_padding_keeps_measurements d s.circ c' hp).1
+        | placer ans => obtain ⟨_, w, rfl, _, rfl⟩ := placer_step h1; rfl
+        | star => obtain ⟨w, _, rfl⟩ := star_step h1; rfl
+        | router ans => simp [isRouter] at hall
+        | unroller ans =>
+          obtain ⟨q, rfl, rfl⟩ := unroller_step h1
+          have hu : unrollOk nat s.circ.queue q = true := hv.1
+          simp only [unrollOk, Bool.and_eq_true, beq_iff_eq] at hu
+          exact hu.2
+
 /-! ### `Passes.__call__` as a fold over an arbitrary pass list -/
 
 /-- **Invariants of the fold.**  Any list of passes (any order, any repetition), every
